@@ -141,17 +141,24 @@ def register(R):
 
   # ---- per-row retrieval formulas at a cut-off k (pointwise: T = relevant among the top k, c = #predictions, L = #relevant)
   RT = 'ml_metrics/_src/aggregates/retrieval.py'
-  dom = ['k_list >= 1', 'tp_at_topks >= 0']
-  withc = ['y_pred_count >= 1', 'tp_at_topks <= min(k_list, y_pred_count)']
-  withl = ['y_true_len >= 1', 'tp_at_topks <= y_true_len']
-  PREC = 'tp_at_topks / min(k_list, y_pred_count)'
-  REC = 'tp_at_topks / y_true_len'
-  A3ARR = dict(tp_at_topks='parr', k_list='parr', y_pred_count='parr', y_true_len='parr')
-  wit = dict(T='tp_at_topks', k='k_list', c='y_pred_count', L='y_true_len')
+  @R.spec
+  def at(it, a, k):        # column j of a column-addressed pointwise array
+    return VReal(a[0].col(it.to_int(a[1])), False)
+
+  # tp_at_topks[:, j] = relevant among the top j + 1 predictions: the formulas must read column k - 1 (an off-by-one in the
+  # cut-off reads another column, which the contract does not relate to T)
+  T = 'at(tp_at_topks, k_list - 1)'
+  dom = ['k_list >= 1', f'{T} >= 0']
+  withc = ['y_pred_count >= 1', f'{T} <= min(k_list, y_pred_count)']
+  withl = ['y_true_len >= 1', f'{T} <= y_true_len']
+  PREC = f'{T} / min(k_list, y_pred_count)'
+  REC = f'{T} / y_true_len'
+  A3ARR = dict(tp_at_topks='pcols', k_list='int', y_pred_count='parr', y_true_len='parr')
+  wit = dict(T=T, k='k_list', c='y_pred_count', L='y_true_len')
   def rt(fn, params, req, ens):
     R.add(Contract(f'{RT}::{fn}', P, types={p_: A3ARR[p_] for p_ in params}, ret='real', requires=req,
-                   ensures=ens, witness={w_: e_ for w_, e_ in wit.items() if e_ in params}, bounded='bounded_retrieval'))
-  rt('_accuracy', ['tp_at_topks', 'k_list'], dom, ['result == ite(tp_at_topks > 0, 1, 0)'])
+                   ensures=ens, witness={w_: e_ for w_, e_ in wit.items() if e_ in params or w_ == 'T'}, bounded='bounded_retrieval'))
+  rt('_accuracy', ['tp_at_topks', 'k_list'], dom, [f'result == ite({T} > 0, 1, 0)'])
   for f_ in ('_precision', '_ppv', '_positive_predictive_value'):
     rt(f_, ['tp_at_topks', 'k_list', 'y_pred_count'], dom + withc, [f'result == {PREC}', '0 <= result and result <= 1'])
   for f_ in ('_recall', '_sensitivity', '_tpr'):
@@ -160,10 +167,10 @@ def register(R):
   rt('_false_discovery_rate', ['tp_at_topks', 'k_list', 'y_pred_count'], dom + withc, [f'result == 1 - {PREC}'])
   # Jaccard: |relevant & retrieved| / |relevant | retrieved|
   rt('_intersection_over_union', ['tp_at_topks', 'k_list', 'y_true_len', 'y_pred_count'], dom + withc + withl,
-     ['result == tp_at_topks / (min(k_list, y_pred_count) + y_true_len - tp_at_topks)', '0 <= result and result <= 1'])
+     [f'result == {T} / (min(k_list, y_pred_count) + y_true_len - {T})', '0 <= result and result <= 1'])
   # tp / (tp + fn + fp) with the top k counted as k predictions (the convention the suite pins)
-  rt('_threat_score', ['tp_at_topks', 'k_list', 'y_true_len'], dom + withl + ['tp_at_topks <= k_list'],
-     ['result == tp_at_topks / (tp_at_topks + (y_true_len - tp_at_topks) + (k_list - tp_at_topks))'])
+  rt('_threat_score', ['tp_at_topks', 'k_list', 'y_true_len'], dom + withl + [f'{T} <= k_list'],
+     [f'result == {T} / ({T} + (y_true_len - {T}) + (k_list - {T}))'])
   rt('_fowlkes_mallows_index', ['tp_at_topks', 'k_list', 'y_true_len', 'y_pred_count'], dom + withc + withl,
      [f'result == sqrt(({PREC}) * ({REC}))'])
   R.add(Contract(f'{RT}::_f1_score', P, types=dict(precision='rreal', recall='rreal'), ret='rreal',
